@@ -439,7 +439,7 @@ func Bubble(t *testing.T, f func()) (leaked bool, other any) {
 			if inner != nil {
 				panic(inner)
 			}
-			if s, ok := r.(string); ok && strings.Contains(s, "blocked goroutines remain") {
+			if strings.Contains(fmt.Sprint(r), "blocked goroutines remain") {
 				leaked = true
 				return
 			}
